@@ -15,8 +15,9 @@ type RawRec struct {
 // RawJWE is a serialized JWE (compact or JSON) at the level an attacker on the wire sees it: base64 strings.
 type RawJWE struct {
 	Compact    bool     `json:"-"`
-	Protected  string   `json:"protected,omitempty"`
-	Recipients []RawRec `json:"recipients,omitempty"`
+	Protected   string          `json:"protected,omitempty"`
+	Unprotected json.RawMessage `json:"unprotected,omitempty"`
+	Recipients  []RawRec        `json:"recipients,omitempty"`
 	AAD        string   `json:"aad,omitempty"`
 	IV         string   `json:"iv,omitempty"`
 	Ciphertext string   `json:"ciphertext,omitempty"`
